@@ -1,4 +1,4 @@
-import Lt.RL1
+import RedisGoModel.Raft.RL1
 /-! Prototype: the *executable* handler — a deterministic function shaped like etcd's `raft.Step` on the safety
     projection — and the proof that every call of it is a finite sequence of L1 steps (so, through `sim`, of L0
     steps). This is the function the lock-step correspondence runs against `RawNode`. -/
